@@ -44,7 +44,11 @@ import (
 
 const (
 	httpKeepalive = 7 * time.Second
-	wsKeepalive   = 4 * time.Second // different from the HTTP value so that a mix-up is visible
+	// the default Upgrader.KeepaliveTime of the scenarios, in seconds: different from the HTTP value
+	// so that a mix-up is visible. The value is a dimension (kcfg.wska): 0 (keep-alive disabled on
+	// the WebSocket: the upgrade clears the HTTP deadline and nothing may close the connection any
+	// more), smaller than (4), equal to (7) and larger than (9) the engine's HTTP keep-alive time
+	defaultWSKA = 4
 )
 
 // kstep is one step of the client: sleep gap seconds, then send one unit of the given kind.
@@ -75,7 +79,14 @@ type kcfg struct {
 	// exchange, which pays for longer unit sequences; the placement of a firing relative to the
 	// server's threads is what the other scenarios explore.
 	calm bool
-	p, d int
+	// wska is Upgrader.KeepaliveTime in seconds (0: disabled)
+	wska int
+	// early: the client's first unit (the upgrade request / the first HTTP request) is already in
+	// the socket when the connection is handed to AddConnNonTLSNonBlocking, so the server may handle
+	// it while that call is still running (the call arms the accept-time deadline after it has
+	// registered the connection with the poller)
+	early bool
+	p, d  int
 }
 
 func (c kcfg) name() string {
@@ -99,6 +110,12 @@ func (c kcfg) name() string {
 	}
 	if c.calm {
 		what = "calm " + what
+	}
+	if c.ws && c.wska != defaultWSKA {
+		what = fmt.Sprintf("wska=%d ", c.wska) + what
+	}
+	if c.early {
+		what = "early " + what
 	}
 	if c.work > 0 {
 		return fmt.Sprintf("keepalive %s %s exec=%s %s work=%ds", kind, c.mode, c.exec, what, c.work)
@@ -126,6 +143,12 @@ type kworld struct {
 	renewNotBefore time.Time
 	working        bool // a handler is spending virtual time (the clock may run)
 	upgraded       bool
+	// keep-alive is disabled on the upgraded connection (Upgrader.KeepaliveTime = 0): no deadline
+	// exists, any firing of the connection's read timer is stale
+	disabled   bool
+	disabledAt time.Time
+	// early variant: what was observed when AddConnNonTLSNonBlocking returned
+	overrideNote string
 	// bytes that completed nothing arrived (a fragment, a request head): whether they count as
 	// activity is left open, a firing up to their arrival + keep-alive time is accepted
 	slackHi time.Time
@@ -211,6 +234,10 @@ func (w *kworld) fireOne() {
 		case w.closes > 0:
 			fr.verdict = "stale"
 			fr.detail = fmt.Sprintf("the read timer fired at %s after the connection's close notification", rel(at))
+		case w.disabled:
+			fr.verdict = "stale"
+			fr.detail = fmt.Sprintf("the read timer fired at %s although keep-alive is disabled on this WebSocket connection (Upgrader.KeepaliveTime = 0; the upgrade, complete at %s, cancels the HTTP keep-alive deadline and nothing arms another)", rel(at), rel(w.disabledAt))
+			w.counters["fire_while_keepalive_disabled"]++
 		case at.Before(w.lo):
 			fr.verdict = "early"
 			fr.detail = fmt.Sprintf("the read timer fired at %s; last activity (%s, handled at %s) + keep-alive time (%v) = %s", rel(at), w.lastRenew, rel(w.lo.Add(-w.ka)), w.ka, w.dlString())
@@ -220,7 +247,11 @@ func (w *kworld) fireOne() {
 			w.counters["fire_racing_exchange"]++
 		case at.After(w.hi) && at.After(w.slackHi):
 			fr.verdict = "legit"
-			w.failf("keepalive-late kind=%s after=%s|last activity (%s) + keep-alive time (%v) = %s, but the read timer fired only at %s", w.kind(), w.lastRenew, w.lastRenew, w.ka, w.dlString(), rel(at))
+			if w.overrideNote != "" {
+				w.failf("accept-arming-overrides-upgrade-deadline|last activity (%s) + keep-alive time (%v) = %s, but the read timer fired only at %s: %s", w.lastRenew, w.ka, w.dlString(), rel(at), w.overrideNote)
+			} else {
+				w.failf("keepalive-late kind=%s after=%s|last activity (%s) + keep-alive time (%v) = %s, but the read timer fired only at %s", w.kind(), w.lastRenew, w.lastRenew, w.ka, w.dlString(), rel(at))
+			}
 		case at.After(w.hi):
 			// between "last handled unit + keep-alive" and "last inbound byte + keep-alive"
 			fr.verdict = "legit"
@@ -275,7 +306,13 @@ func (w *kworld) executorDone() {
 	w.tick()
 	if w.started > w.completed {
 		w.completed = w.started
-		if w.closes == 0 {
+		if w.closes == 0 && w.upgraded && w.ka == 0 {
+			if !w.disabled {
+				w.disabled, w.disabledAt = true, vtime.VNow()
+				w.lastRenew = w.curKind
+			}
+			w.counters["units_handled_with_keepalive_disabled"]++
+		} else if w.closes == 0 {
 			w.lo, w.hi = w.renewNotBefore.Add(w.ka), vtime.VNow().Add(w.ka)
 			w.slackHi = time.Time{}
 			w.lastRenew = w.curKind
@@ -317,6 +354,16 @@ func (w *kworld) onClose(c net.Conn, err error) {
 	}
 	switch {
 	case ok:
+	case w.disabled && w.overrideNote != "":
+		w.failf("accept-arming-overrides-upgrade-deadline|closed with %q at %s although keep-alive is disabled on this WebSocket connection: %s", err, rel(w.closeAt), w.overrideNote)
+	case w.disabled:
+		detail := "the connection's read timer never fired"
+		if n := len(w.fires); n > 0 {
+			detail = w.fires[n-1].detail
+		}
+		w.failf("keepalive-close-while-disabled kind=ws|closed with %q at %s: %s", err, rel(w.closeAt), detail)
+	case len(w.fires) > 0 && w.overrideNote != "":
+		w.failf("accept-arming-overrides-upgrade-deadline|closed with %q at %s: %s: %s", err, rel(w.closeAt), w.fires[0].detail, w.overrideNote)
 	case len(w.fires) > 0:
 		w.failf("keepalive-%s-close kind=%s after=%s|closed with %q at %s: %s", w.fires[0].verdict, w.kind(), w.lastRenew, err, rel(w.closeAt), w.fires[0].detail)
 	default:
@@ -393,7 +440,8 @@ func kbody(c kcfg) func() {
 			executor = func(f func()) { vsched.GoNamed("exec", func() { f(); w.executorDone() }) }
 		}
 		up := websocket.NewUpgrader()
-		up.KeepaliveTime = wsKeepalive
+		wsKA := time.Duration(c.wska) * time.Second
+		up.KeepaliveTime = wsKA
 		up.OnMessage(func(_ *websocket.Conn, _ websocket.MessageType, data []byte) {
 			w.activityStart()
 			w.counters["ws_messages_delivered"]++
@@ -422,7 +470,7 @@ func kbody(c kcfg) func() {
 				w.activityStart()
 				if r.URL.Path == "/ws" {
 					// from here on the deadline may already be the WebSocket one
-					if t := vtime.VNow().Add(wsKeepalive); t.Before(w.lo) {
+					if t := vtime.VNow().Add(wsKA); wsKA > 0 && t.Before(w.lo) {
 						w.lo = t
 					}
 					if _, err := up.Upgrade(rw, r, nil); err != nil {
@@ -435,7 +483,7 @@ func kbody(c kcfg) func() {
 					// from here on the WebSocket keep-alive time applies
 					w.tick()
 					w.upgraded = true
-					w.ka = wsKeepalive
+					w.ka = wsKA
 					w.maybeFire("upgraded")
 					return
 				}
@@ -458,10 +506,45 @@ func kbody(c kcfg) func() {
 		}
 		w.conn, w.peer = ekit.Stream(false, 1<<20, 1<<20)
 		w.lo, w.hi = vtime.VNow().Add(httpKeepalive), vtime.VNow().Add(httpKeepalive)
+		firstUnit := upgradeRequest()
+		firstKind := "upgrade"
+		if !c.ws && len(c.steps) > 0 {
+			firstUnit, firstKind = unitBytes(c.steps[0].kind, 0), kindNames[c.steps[0].kind]
+		}
+		if c.early {
+			// the client was quick: its first unit is in the socket before the server registers the
+			// connection, the poller reads it as soon as the descriptor is in the epoll set
+			w.tick()
+			w.sent++
+			w.curKind = firstKind
+			w.peer.WriteAll(firstUnit)
+		}
 		engine.AddConnNonTLSNonBlocking(&nbhttp.Conn{Conn: w.conn}, nil, func() {})
-		w.hi = vtime.VNow().Add(httpKeepalive)
+		// ---- atomic until WaitIdle
+		w.tick()
+		handledInsideAccept := c.early && w.completed >= w.sent
+		if !c.early {
+			w.hi = vtime.VNow().Add(httpKeepalive)
+		}
 		vsched.WaitIdle()
-		if names := vtime.ArmedNames(); len(names) != 1 {
+		w.tick()
+		if c.early {
+			// the first exchange is complete. Whatever the order of the accept-time arming and the
+			// handling of the unit was, the deadline that is armed now must be the one that follows
+			// from the unit (the model's [lo, hi], or none when keep-alive is disabled); what is
+			// observed here only NAMES the cause, the verdict is taken where the statement speaks:
+			// at the firing / the close
+			if handledInsideAccept {
+				w.counters["first_unit_handled_inside_AddConnNonTLSNonBlocking"]++
+			}
+			if t := snapTimers(w.conn).t[0]; w.closes == 0 && t.armed && (w.disabled || t.when.After(w.hi) || t.when.Before(w.lo)) {
+				want := fmt.Sprintf("the %s at %s had set %s", firstKind, rel(w.lo.Add(-w.ka)), w.dlString())
+				if w.disabled {
+					want = fmt.Sprintf("the upgrade at %s had cancelled the deadline (Upgrader.KeepaliveTime = 0)", rel(w.disabledAt))
+				}
+				w.overrideNote = fmt.Sprintf("the first request was already in the socket when the connection was accepted; AddConnNonTLSNonBlocking registers the connection with the poller (engine.AddConn) BEFORE it arms the accept-time deadline, the request was handled in between (handled before the call returned: %v), %s, and the late SetReadDeadline(accept + %v) overrode that: the read timer is armed for %s", handledInsideAccept, want, httpKeepalive, rel(t.when))
+			}
+		} else if names := vtime.ArmedNames(); len(names) != 1 {
 			vsched.Fail("keepalive-not-armed-at-accept|after AddConnNonTLSNonBlocking %d timers are armed (%v); expected exactly the connection's read deadline", len(names), names)
 			return
 		}
@@ -489,10 +572,13 @@ func kbody(c kcfg) func() {
 				w.peer.WriteAll(b)
 				w.tick()
 			}
-			if c.ws {
+			if c.ws && !c.early {
 				send(upgradeRequest(), "upgrade")
 			}
 			for i, st := range c.steps {
+				if c.early && !c.ws && i == 0 {
+					continue // sent before the accept
+				}
 				if st.gap > 0 {
 					vtime.Sleep(time.Duration(st.gap) * time.Second)
 				}
@@ -527,7 +613,10 @@ func kbody(c kcfg) func() {
 			w.failf("harness|%d timers still armed at quiescence: %v", n, vtime.ArmedNames())
 		}
 		closed, _ := w.conn.IsClosed()
-		if !closed {
+		if !closed && w.disabled {
+			// keep-alive is off: open for ever is the expected outcome
+			w.counters["ws_open_at_end_keepalive_disabled"]++
+		} else if !closed {
 			w.failf("keepalive-not-enforced kind=%s after=%s|the %s connection has been idle since %s (last activity: %s; keep-alive time %v), every pending timer has fired (virtual time %s), and it is still open", w.kind(), w.lastRenew, w.kind(), rel(w.lo.Add(-w.ka)), w.lastRenew, w.ka, rel(vtime.VNow()))
 		} else if w.closes == 0 {
 			w.counters["closed_without_notification_judged_by_C03"]++
@@ -548,6 +637,8 @@ func kbody(c kcfg) func() {
 		}
 		if w.closes > 0 {
 			lastOutcome = fmt.Sprintf("%s closed %s at %s after %d exchanges", w.kind(), errClass(w.closeErr), rel(w.closeAt), w.completed)
+		} else if w.disabled {
+			lastOutcome = fmt.Sprintf("ws open, keep-alive disabled, after %d exchanges", w.completed)
 		} else {
 			lastOutcome = "open"
 		}
@@ -583,7 +674,7 @@ func keepaliveScenarios(tier string) []weighted {
 		out = append(out, weighted{&vkit.Scenario{Name: c.name(), Body: kbody(c), Check: check, P: c.p, D: c.d,
 			Opts:     vsched.Options{Horizon: 60000},
 			Counters: func() map[string]int { return lastCounters }, Outcome: func() string { return lastOutcome },
-			NonTrivial: func(m map[string]int) bool { return m["timers_fired"] > 0 }}, weight})
+			NonTrivial: func(m map[string]int) bool { return m["timers_fired"] > 0 || m["ws_open_at_end_keepalive_disabled"] > 0 }}, weight})
 	}
 	// both tiers use gap lists of length <= 2; thorough adds a gap value, all epoll modes for the
 	// two-gap HTTP lists, the two-gap WebSocket lists and one more preemption for the short lists
@@ -660,7 +751,7 @@ func keepaliveScenarios(tier string) []weighted {
 					for _, g := range gl {
 						steps = append(steps, kstep{g, def})
 					}
-					add(kcfg{mode: m, exec: e, ws: ws, steps: steps, p: p, d: d})
+					add(kcfg{mode: m, exec: e, ws: ws, steps: steps, wska: defaultWSKA, p: p, d: d})
 					// the same list with a handler that takes virtual time (3 of 7 s / 2 of 4 s): the
 					// keep-alive time must count from the end of the exchange
 					if (len(gl) == 1 && (thorough || !ws || m == ekit.LT)) || (len(gl) == 2 && m == ekit.LT && (thorough || (gl[0] == 3 || (gl[0] == 0 && gl[1] != 8)))) {
@@ -677,7 +768,7 @@ func keepaliveScenarios(tier string) []weighted {
 						if thorough && ws && len(gl) == 2 {
 							continue
 						}
-						add(kcfg{mode: m, exec: e, ws: ws, steps: steps, work: work, p: wp, d: wd})
+						add(kcfg{mode: m, exec: e, ws: ws, steps: steps, work: work, wska: defaultWSKA, p: wp, d: wd})
 					}
 				}
 			}
@@ -692,6 +783,8 @@ func keepaliveScenarios(tier string) []weighted {
 		quick bool
 		work  int
 		calm  bool
+		wska  int
+		early bool
 	}
 	type kl4 struct {
 		ws    bool
@@ -718,7 +811,7 @@ func keepaliveScenarios(tier string) []weighted {
 		{false, "3:H 2:Y", true, 0}, {false, "3:H", true, 0}, {false, "3:H 5:Y", true, 0}, {false, "3:H 4:Y", false, 0}, {false, "0:H 3:Y", false, 0},
 		{false, "3:Q 3:H 2:Y", false, 0}, {false, "3:H 2:Y 3:Q", false, 0}, {false, "3:H 2:Y", false, 3},
 	} {
-		klists = append(klists, kl{x.ws, x.steps, x.quick, x.work, false})
+		klists = append(klists, kl{x.ws, x.steps, x.quick, x.work, false, defaultWSKA, false})
 	}
 	// longer sequences, timers fired at quiescence only ("calm"): every ordered pair (quick) and
 	// triple (thorough) of WebSocket unit kinds, 2 s after the upgrade and then 3 s apart - each unit
@@ -727,18 +820,42 @@ func keepaliveScenarios(tier string) []weighted {
 	wsKinds := []string{"T", "B", "I", "O"}
 	for _, a := range wsKinds {
 		for _, b := range wsKinds {
-			klists = append(klists, kl{true, "2:" + a + " 3:" + b, true, 0, true})
+			klists = append(klists, kl{true, "2:" + a + " 3:" + b, true, 0, true, defaultWSKA, false})
 			for _, c := range wsKinds {
-				klists = append(klists, kl{true, "2:" + a + " 3:" + b + " 3:" + c, a != "B" && b != "B" && c != "B" && (a != b || b != c), 0, true})
+				klists = append(klists, kl{true, "2:" + a + " 3:" + b + " 3:" + c, a != "B" && b != "B" && c != "B" && (a != b || b != c), 0, true, defaultWSKA, false})
 			}
 		}
 	}
 	for _, x := range []string{"2:F 1:C 3:I", "1:F 2:I 2:C", "1:F 2:O 2:C 3:T", "2:F 1:M 1:C", "2:I 3:F 1:C", "2:F 1:M", "2:T 3:F", "2:I 3:I 3:I 3:I"} {
-		klists = append(klists, kl{true, x, true, 0, true})
+		klists = append(klists, kl{true, x, true, 0, true, defaultWSKA, false})
 	}
 	for _, x := range []string{"3:Q 5:H 1:Y 6:Q", "3:H 2:Y 6:H 1:Y", "3:Q 5:H", "3:H 2:Y 6:Q 8:Q"} {
-		klists = append(klists, kl{false, x, true, 0, true})
+		klists = append(klists, kl{false, x, true, 0, true, defaultWSKA, false})
 	}
+	// Upgrader.KeepaliveTime: disabled (0: after the upgrade nothing may close the connection, it
+	// is open at the end whatever the gaps - also gaps beyond the HTTP keep-alive time of 7 s, which
+	// is the deadline the upgrade has to cancel), equal to (7) and larger than (9) the HTTP
+	// keep-alive time. Calm, and for the disabled case also with the scheduler-placed clock.
+	type kw struct {
+		wska  int
+		steps string
+		calm  bool
+		quick bool
+	}
+	for _, x := range []kw{
+		{0, "", true, true}, {0, "8:T", true, true}, {0, "3:T 5:T", true, true}, {0, "3:I 5:O", true, true}, {0, "6:F 2:C 8:B", true, true},
+		{0, "8:T", false, true}, {0, "", false, true}, {0, "3:I 5:T", false, false}, {0, "7:T", false, false}, {0, "7:I", true, false},
+		{7, "3:T 6:I", true, true}, {7, "7:T", true, true}, {7, "8:O", true, true}, {7, "6:T", false, false},
+		{9, "8:T", true, true}, {9, "5:T 8:I", true, true}, {9, "9:O", true, true}, {9, "10:T", true, true}, {9, "8:T", false, true}, {9, "", false, false}, {9, "9:T", false, false},
+	} {
+		klists = append(klists, kl{true, x.steps, x.quick, 0, x.calm, x.wska, false})
+	}
+	// the first unit is in the socket before the connection is accepted (calm; one preemption lets
+	// the server handle it inside AddConnNonTLSNonBlocking)
+	for _, x := range []kw{{defaultWSKA, "", true, true}, {0, "", true, true}, {0, "8:T", true, true}, {9, "8:T", true, true}, {defaultWSKA, "2:I", true, true}, {7, "", true, false}} {
+		klists = append(klists, kl{true, x.steps, x.quick, 0, x.calm, x.wska, true})
+	}
+	klists = append(klists, kl{false, "0:Q 3:Q", true, 0, true, defaultWSKA, true}, kl{false, "0:H 2:Y", true, 0, true, defaultWSKA, true})
 	for _, x := range klists {
 		if !x.quick && !thorough {
 			continue
@@ -752,7 +869,7 @@ func keepaliveScenarios(tier string) []weighted {
 			steps = append(steps, st)
 		}
 		modes := []ekit.Mode{ekit.LT}
-		if thorough && len(steps) == 1 {
+		if thorough && (len(steps) == 1 || x.calm) {
 			modes = ekit.Modes
 		}
 		for _, m := range modes {
@@ -770,7 +887,7 @@ func keepaliveScenarios(tier string) []weighted {
 			if x.calm {
 				p, d = 1, 1
 			}
-			add(kcfg{mode: m, exec: "go", ws: x.ws, steps: steps, work: x.work, calm: x.calm, p: p, d: d})
+			add(kcfg{mode: m, exec: "go", ws: x.ws, steps: steps, work: x.work, calm: x.calm, wska: x.wska, early: x.early, p: p, d: d})
 		}
 	}
 	return out
